@@ -41,6 +41,19 @@ let run_line line =
     end else if inp = "U8D" then begin  (* U8D <bytes> : strict decoder *)
       let zs = List.map (fun c -> z_of_bz (BZ.of_string c)) (if prog = "" then [] else String.split_on_char ',' prog) in
       (match utf8_decode zs with Some l -> print_endline ("OK " ^ String.concat "," (List.map (fun b -> BZ.to_string (bz_of_z b)) l)) | None -> print_endline "REJECT")
+    end else if inp = "U16" || inp = "U32" || inp = "U16D" || inp = "U32D" then begin
+      (* U16 / U32 <order> <code points> : the encoders of Utf16.v (order = le | be | bom);  U16D / U32D <order> <bytes> : the strict decoders *)
+      let i2 = String.index prog ' ' in
+      let order = String.sub prog 0 i2 and rest = String.sub prog (i2 + 1) (String.length prog - i2 - 1) in
+      let zs = List.map (fun c -> z_of_bz (BZ.of_string c)) (if rest = "" then [] else String.split_on_char ',' rest) in
+      let show l = String.concat "," (List.map (fun b -> BZ.to_string (bz_of_z b)) l) in
+      if inp = "U16" then print_endline (show (if order = "bom" then utf16_encode_bom zs else utf16_encode (order = "be") zs))
+      else if inp = "U32" then print_endline (show (if order = "bom" then utf32_encode_bom zs else utf32_encode (order = "be") zs))
+      else begin
+        let r = if inp = "U16D" then (if order = "bom" then utf16_decode_bom zs else utf16_decode (order = "be") zs)
+                else (if order = "bom" then utf32_decode_bom zs else utf32_decode (order = "be") zs) in
+        match r with Some l -> print_endline ("OK " ^ show l) | None -> print_endline "REJECT"
+      end
     end else if inp = "F" then begin
       (* F <which> <sign> <mantissa> <exponent> : the model's rounding of the double  sign * mantissa * 2^exponent *)
       (match String.split_on_char ' ' prog with
